@@ -36,7 +36,9 @@ impl Clone for FeeFields {
 impl Copy for FeeFields {}
 
 pub uninterp spec fn spec_root_key_id<K>() -> Identifier;
+#[derive(PartialEq, Eq, Structural)]
 pub struct SwitchCommitmentType { pub t: u8 }
+#[allow(non_upper_case_globals)]
 impl SwitchCommitmentType { pub const Regular: SwitchCommitmentType = SwitchCommitmentType { t: 1 }; }
 pub trait Keychain: Sized + Clone {
     fn secp(&self) -> &Secp256k1;
@@ -272,7 +274,8 @@ pub fn vf_clone<T>(v: &T) -> (r: T) ensures r == *v { unimplemented!() }
 // grin_core::global / consensus / libtx::reward (opaque; transcribed contracts)
 pub mod global { pub use crate::coinbase_maturity; }
 #[verifier::external_body]
-pub fn coinbase_maturity() -> (r: u64) { unimplemented!() }
+pub fn coinbase_maturity() -> (r: u64) ensures r == spec_coinbase_maturity() { unimplemented!() }
+pub uninterp spec fn spec_coinbase_maturity() -> u64;
 pub uninterp spec fn spec_reward(fees: u64) -> u64;   // consensus::reward = REWARD.saturating_add(fees)
 #[verifier::external_body]
 pub fn reward(fees: u64) -> (r: u64) ensures r == spec_reward(fees) { unimplemented!() }
